@@ -218,11 +218,12 @@ def C09_5(ctx, facts):
         acc = [c for c in ta.calls() if norm(c.name).endswith("TlsAcceptor::accept")]
         ctx.check(len(acc) == 1, "TlsAcceptor::poll_accept|lazy", "TlsAcceptor::poll_accept only creates the tokio_rustls Accept future and returns it unpolled inside TlsStream",
                   "TlsAcceptor::poll_accept does not create exactly one Accept future")
-        hs = facts.unit(facts.fn("server::conn::tls::TlsStream::handshake"))
+        import fwd
+        hs = fwd.lazy_handshake_fn(facts, "server::conn::tls::TlsStream")
         polls = [c for c in hs.calls() if norm(c.decl or c.name).endswith("::poll") and "tokio_rustls::Accept<" in " ".join(c.t.get("argtys") or [])]
         ctx.check(len(polls) >= 1, "TlsStream::handshake|drives-accept", "the handshake is driven from TlsStream::handshake (inside the connection task)",
                   "TlsStream::handshake does not poll the Accept future")
-        callers = {c.fn.nkey for c in facts.call_sites_of("server::conn::tls::TlsStream::handshake")}
+        callers = {c.fn.nkey for c in facts.call_sites_of(hs.nkey)}
         ctx.check(all("poll_accept" not in k for k in callers) and callers, "TlsStream::handshake|callers", "handshake is called from the stream's read/write/flush paths only (%d callers)" % len(callers),
                   "handshake called from %s" % sorted(callers))
 
